@@ -39,7 +39,9 @@ func mapOrderMain(dir string, patterns []string, simenvPath string) {
 			die("package %s has errors", p.PkgPath)
 		}
 		files := append([]*ast.File(nil), p.Syntax...)
-		sort.Slice(files, func(i, j int) bool { return p.Fset.Position(files[i].Pos()).Filename < p.Fset.Position(files[j].Pos()).Filename })
+		sort.Slice(files, func(i, j int) bool {
+			return p.Fset.Position(files[i].Pos()).Filename < p.Fset.Position(files[j].Pos()).Filename
+		})
 		for _, f := range files {
 			name := p.Fset.Position(f.Pos()).Filename
 			if filepath.Ext(name) != ".go" || len(name) > 8 && name[len(name)-8:] == "_test.go" {
